@@ -1049,7 +1049,11 @@ impl TypeChecker {
         let mut paths = paths.to_vec();
         loop {
             let last_len = paths.len();
-            paths.retain(|p| self.import(scope, p).is_err());
+            let pending = paths.clone();
+            paths.retain(|p| {
+                self.import_must_wait(scope, p, &pending)
+                    || self.import(scope, p).is_err()
+            });
             let new_len = paths.len();
             if new_len == 0 {
                 return Ok(());
@@ -1058,8 +1062,46 @@ impl TypeChecker {
                 for p in &paths {
                     self.import(scope, p)?;
                 }
+                return Ok(());
             }
         }
+    }
+
+    /// Whether an import has to wait for another import of the same scope
+    ///
+    /// The imports of a scope take precedence over the names of the
+    /// enclosing scopes. So, if the first identifier of the path is not
+    /// declared in this scope but is the name that another, still pending,
+    /// import of this scope will introduce, we have to resolve that other
+    /// import first. Otherwise the result would depend on the order of
+    /// the imports.
+    fn import_must_wait(
+        &self,
+        scope: ScopeRef,
+        path: &Meta<ast::Path>,
+        pending: &[&Meta<ast::Path>],
+    ) -> bool {
+        let Some(first) = path.idents.first() else {
+            return false;
+        };
+        if ["super", "pkg", "std", "dep"]
+            .iter()
+            .any(|kw| first.node == (*kw).into())
+        {
+            return false;
+        }
+        if self
+            .type_info
+            .scope_graph
+            .resolve_name(scope, first, false)
+            .is_some()
+        {
+            return false;
+        }
+        pending.iter().any(|other| {
+            !std::ptr::eq(*other, path)
+                && other.idents.last().is_some_and(|i| i.node == first.node)
+        })
     }
 
     fn import(
